@@ -1289,7 +1289,15 @@ func (z *Decimal) SetMantExp(mant *Decimal, exp int) *Decimal {
 		z.acc = Exact
 		return z
 	}
-	z.setExpAndRound(int64(z.exp)+int64(exp), 0)
+	// exp may be any int: keep the sum below from wrapping around; the clamped
+	// values still overflow or underflow.
+	e := int64(exp)
+	if e > MaxExp-MinExp {
+		e = MaxExp - MinExp + 1
+	} else if e < MinExp-MaxExp {
+		e = MinExp - MaxExp - 1
+	}
+	z.setExpAndRound(int64(z.exp)+e, 0)
 	return z
 }
 
